@@ -503,6 +503,7 @@ func (u *Unit) newSlice(st *State, prefix string, n, c Term) Term {
 	st.Assume(Eq(App("vcap", SInt, s), c))
 	u.Axiom(Eq(App("sptr", SV, s), p))
 	u.Axiom(Eq(App("soff", SInt, s), IntLit(0)))
+	u.slices[s.String()] = sliceInfo{ptr: p, off: IntLit(0), len: n, cap: c}
 	return s
 }
 
@@ -855,8 +856,9 @@ func (u *Unit) slice(st *State, fr *Frame, x *ssa.Slice) {
 		r := u.Fresh("sub", SV)
 		st.Assume(Eq(App("vlen", SInt, r), Sub(hi, lo)))
 		st.Assume(Eq(App("vcap", SInt, r), Sub(max, lo)))
-		st.Assume(Eq(App("sptr", SV, r), App("sptr", SV, b)))
-		st.Assume(Eq(App("soff", SInt, r), Add(App("soff", SInt, b), lo)))
+		u.Axiom(Eq(App("sptr", SV, r), u.sptrOf(b)))
+		u.Axiom(Eq(App("soff", SInt, r), Add(u.soffOf(b), lo)))
+		u.slices[r.String()] = sliceInfo{ptr: u.sptrOf(b), off: Add(u.soffOf(b), lo), len: Sub(hi, lo), cap: Sub(max, lo)}
 		fr.Vals[x] = Val{T: r}
 	case *types.Pointer:
 		arr := t.Elem().Underlying().(*types.Array)
@@ -870,9 +872,10 @@ func (u *Unit) slice(st *State, fr *Frame, x *ssa.Slice) {
 		r := u.Fresh("arrslice", SV)
 		st.Assume(Eq(App("vlen", SInt, r), Sub(hi, lo)))
 		st.Assume(Eq(App("vcap", SInt, r), Sub(n, lo)))
-		st.Assume(Eq(App("sptr", SV, r), b))
-		st.Assume(Eq(App("soff", SInt, r), lo))
-		st.Assume(Neq(r, NilV))
+		u.Axiom(Eq(App("sptr", SV, r), b))
+		u.Axiom(Eq(App("soff", SInt, r), lo))
+		u.Axiom(Neq(r, NilV))
+		u.slices[r.String()] = sliceInfo{ptr: b, off: lo, len: Sub(hi, lo), cap: Sub(n, lo)}
 		fr.Vals[x] = Val{T: r}
 	default:
 		u.abstracted("Slice on " + x.X.Type().String())
@@ -941,9 +944,18 @@ func (u *Unit) rangeNext(st *State, fr *Frame, x *ssa.Next) {
 	}
 	st.Assume(Implies(Not(ok), Eq(it.Count, u.mapLenOf(st, mt, it.Map))))
 	st.Assume(Le(it.Count, u.mapLenOf(st, mt, it.Map)))
+	// assumed universal facts (requires) at the new key
+	for _, un := range st.Universals {
+		if un.sort == ks {
+			if f, good := un.inst(k); good {
+				st.Assume(f)
+			}
+		}
+	}
 	nit := *it
 	nit.Visited = Ite(ok, Store(it.Visited, k, True), it.Visited)
 	nit.Count = Ite(ok, Add(it.Count, IntLit(1)), it.Count)
+	nit.LastKey = k
 	fr.IterOf[x.Iter] = &nit
 	v := Ite(ok, val, u.Zero(mt.Elem()))
 	_ = es
